@@ -678,7 +678,20 @@ class BuiltinModelLoaderGen(ModelLoaderGen):
         on_lookup_error: str,
     ):
         if state.parent_path in state.type_checked_type_paths:
-            with state.builder(f"if {state.path[-1]!r} in {state.parent.v_data}:"):
+            # a subscriptable object that passed the lookups before can still be no container (``re.Match``)
+            with state.builder(
+                f"""
+                try:
+                    has_key = {state.path[-1]!r} in {state.parent.v_data}
+                except TypeError:
+                """,
+            ):
+                self._gen_raise_bad_type_error(
+                    state,
+                    f"TypeLoadError(CollectionsMapping, {state.parent.v_data})",
+                    namer=state.parent,
+                )
+            with state.builder("if has_key:"):
                 self._gen_field_assignment(
                     assign_to=assign_to,
                     field_id=field.id,
